@@ -3,7 +3,7 @@
    [sub_call rec L path d inter s k e w] is the recursive verification of the layout e offered for step s
    under key id k: layout keys = {k -> L.keys[k]} (Go's zero key when L does not define k), link directory
    = sub-directory "<s>.<first 8 chars of k>", step name s, no parameters, same intermediates. *)
-From IT Require Import model.Pipeline proofs.PipelineProofs.
+From IT Require Import model.Pipeline proofs.PipelineProofs model.PipelineInst proofs.PipelineInstProofs.
 
 Section C08.
   Context (World : Type) (vsig : env -> key -> bool) (expiry_ok : str -> bool)
@@ -99,6 +99,16 @@ Section C08.
   Theorem C08_events_below : forall fuel w p dd e ks sn ps it x w' tr,
     verify fuel w p dd e ks sn ps it = (x, w', tr) -> Forall (below p) tr.
   Proof. apply verify_below. Qed.
+
+  (* the recursion bound of the model (fuel) is not observable: every fuel above the nesting depth of the link
+     directory tree gives the same result, world and trace - provided that no layout-typed link is counted
+     from an empty directory (what the threshold stage guarantees, see C08_fuel_not_observable_inst) *)
+  Theorem C08_fuel_not_observable :
+    empty_dir_no_layouts load_all verify_thresholds ->
+    forall f1 f2 d, (ld_depth d < f1)%nat -> (ld_depth d < f2)%nat ->
+    forall w path layout_env keys step_name params inter,
+      verify f1 w path d layout_env keys step_name params inter = verify f2 w path d layout_env keys step_name params inter.
+  Proof. apply verify_fuel_stable. Qed.
 End C08.
 
 Print Assumptions C08_recursive_spec.
@@ -106,3 +116,13 @@ Print Assumptions C08_resolution_shape.
 Print Assumptions C08_failure_propagates.
 Print Assumptions C08_unauthorised_never_followed.
 Print Assumptions C08_events_below.
+
+(* ... and for the pipeline with the component models plugged in (model/PipelineInst.v) unconditionally *)
+Theorem C08_fuel_not_observable_inst : forall now truths tc tcc cmds f1 f2 d,
+  (ld_depth d < f1)%nat -> (ld_depth d < f2)%nat ->
+  forall w path layout_env keys step_name params inter,
+    verify_inst now truths tc tcc cmds f1 w path d layout_env keys step_name params inter =
+    verify_inst now truths tc tcc cmds f2 w path d layout_env keys step_name params inter.
+Proof. exact verify_inst_fuel_stable. Qed.
+Print Assumptions C08_fuel_not_observable.
+Print Assumptions C08_fuel_not_observable_inst.
